@@ -80,9 +80,13 @@ class BracketNode(IndentationNode):
             #     a,
             #     b,
             # )
-            self.bracket_indentation = parent_indentation \
-                + config.closing_bracket_hanging_indentation
-            self.indentation = parent_indentation + config.indentation
+            if parent_indentation is None:
+                # Inside a visual indentation that tabs cannot express.
+                self.bracket_indentation = self.indentation = None
+            else:
+                self.bracket_indentation = parent_indentation \
+                    + config.closing_bracket_hanging_indentation
+                self.indentation = parent_indentation + config.indentation
             self.type = IndentationTypes.HANGING_BRACKET
         else:
             # Implies code like:
@@ -116,7 +120,8 @@ class ImplicitNode(BracketNode):
         self.type = IndentationTypes.IMPLICIT
 
         next_leaf = leaf.get_next_leaf()
-        if leaf == ':' and '\n' not in next_leaf.prefix and '\r' not in next_leaf.prefix:
+        if leaf == ':' and '\n' not in next_leaf.prefix and '\r' not in next_leaf.prefix \
+                and self.indentation is not None:
             self.indentation += ' '
 
 
@@ -439,7 +444,7 @@ class PEP8Normalizer(ErrorFinder):
                     # Comments can be dedented. So we have to care for that.
                     n = self._last_indentation_tos
                     while True:
-                        if len(indentation) > len(n.indentation):
+                        if n.indentation is None or len(indentation) > len(n.indentation):
                             break
 
                         should_be_indentation = n.indentation
@@ -465,6 +470,9 @@ class PEP8Normalizer(ErrorFinder):
                             node.get_latest_suite_node().indentation \
                             + self._config.indentation:
                         self.add_issue(part, 129, "Line with same indent as next logical block")
+                    elif should_be_indentation is None:
+                        # With tabs there is no visual indentation to compare with.
+                        pass
                     elif indentation != should_be_indentation:
                         if not self._check_tabs_spaces(spacing) and part.value not in \
                                 {'\n', '\r\n', '\r'}:
